@@ -245,3 +245,123 @@ func c16RichEncoder(r *Run) {
 		}
 	}
 }
+
+// c09FileWriterInterleaved: one FileWriter serving up to three files whose calls are interleaved
+// (a sharding exporter, a mirror, a header rendered ahead with AppendHeader).  Each file must be
+// a container of its own: its header, then exactly the blocks handed over for it, each closed
+// by the marker its header carries.  The whole history is also evaluated by the model
+// (Model/Writer.v fw_written / fw_append; theorem C09_filewriter_any_interleaving).
+func c09FileWriterInterleaved(r *Run) {
+	schema := []byte(`{"type":"record","name":"Row","fields":[{"name":"v","type":"long"}]}`)
+	nh := r.N(12, 80)
+	for it := 0; it < nh; it++ {
+		codec := codecNames[it%3]
+		nw := 1 + r.Rng.Intn(3)
+		fw, err := avro.NewFileWriter(schema, avro.Compression(codec))
+		if err != nil {
+			r.Fail(-1, "call-failed", "NewFileWriter: "+err.Error(), nil)
+			return
+		}
+		writers := make([]*w9RecWriter, nw)
+		for i := range writers {
+			writers[i] = &w9RecWriter{failAt: -1}
+		}
+		type blk struct {
+			n    int
+			data []byte
+		}
+		given := make([][]blk, nw)
+		headed := make([]bool, nw)
+		var ops, appended, hist []string
+		call := func(f func() error) (err error) {
+			defer func() {
+				if p := recover(); p != nil {
+					err = fmt.Errorf("PANIC: %v", p)
+				}
+			}()
+			return f()
+		}
+		bad := ""
+		header := func(w int) {
+			if e := call(func() error { return fw.WriteHeader(writers[w]) }); e != nil {
+				bad = fmt.Sprintf("WriteHeader on a working writer: %v", e)
+			}
+			headed[w] = true
+			ops = append(ops, cApp("FwHeader", w9CNat(w)))
+			hist = append(hist, fmt.Sprintf("WriteHeader(file %d)", w))
+		}
+		header(0)
+		for step, steps := 0, 4+r.Rng.Intn(16); step < steps && bad == ""; step++ {
+			w := r.Rng.Intn(nw)
+			switch x := r.Rng.Intn(10); {
+			case !headed[w]:
+				header(w)
+			case x == 0:
+				buf := make([]byte, r.Rng.Intn(6), 64)
+				r.Rng.Read(buf)
+				var out []byte
+				if e := call(func() error { out = fw.AppendHeader(append([]byte{}, buf...)); return nil }); e != nil {
+					bad = fmt.Sprintf("AppendHeader: %v", e)
+				}
+				ops = append(ops, cApp("FwAppend", w9CUB(buf)))
+				appended = append(appended, w9CUB(out))
+				hist = append(hist, fmt.Sprintf("AppendHeader(%d bytes)", len(buf)))
+			default:
+				n := []int{1, 2, 5, 63, 64, 65, 300}[r.Rng.Intn(7)]
+				data := make([]byte, n)
+				for i := range data {
+					data[i] = byte(r.Rng.Intn(64) * 2)
+				}
+				if e := call(func() error { return fw.WriteBlock(writers[w], n, data) }); e != nil {
+					bad = fmt.Sprintf("WriteBlock on a working writer: %v", e)
+				}
+				given[w] = append(given[w], blk{n, data})
+				ops = append(ops, cApp("FwBlock", w9CNat(w), cZ(int64(n)), w9CUB(data)))
+				hist = append(hist, fmt.Sprintf("WriteBlock(file %d, %d rows)", w, n))
+			}
+		}
+		desc := map[string]any{"codec": codec, "files": nw, "history": hist}
+		r.Count(fmt.Sprintf("filewriter-interleaved/files-%d", nw))
+		if bad != "" {
+			r.Fail(-1, "call-failed", bad, desc)
+			continue
+		}
+		var stored [][]byte
+		var outs []string
+		ok := true
+		for w := 0; w < nw && ok; w++ {
+			outs = append(outs, w9CUB(writers[w].acc))
+			if !headed[w] {
+				if len(writers[w].acc) != 0 {
+					r.Fail(-1, "early-or-late-block", fmt.Sprintf("file %d was never written to and holds %d bytes", w, len(writers[w].acc)), desc)
+					ok = false
+				}
+				continue
+			}
+			c, err := parseContainer(writers[w].acc)
+			switch {
+			case err != nil:
+				r.Fail(-1, "length-mismatch", fmt.Sprintf("file %d of %d written through one FileWriter is not a container: %v", w, nw, err), desc)
+				ok = false
+			case c.Codec != codec || !bytes.Equal(c.SchemaJSON, schema):
+				r.Fail(-1, "header-codec", fmt.Sprintf("file %d: header carries codec %q and schema %q", w, c.Codec, c.SchemaJSON), desc)
+				ok = false
+			case len(c.Blocks) != len(given[w]):
+				r.Fail(-1, "early-or-late-block", fmt.Sprintf("file %d: %d WriteBlock calls, %d blocks", w, len(given[w]), len(c.Blocks)), desc)
+				ok = false
+			default:
+				for i, b := range given[w] {
+					if c.Blocks[i].Count != int64(b.n) || !bytes.Equal(c.Blocks[i].Payload, b.data) {
+						r.Fail(-1, "lost-record", fmt.Sprintf("file %d block %d: %d rows / %d bytes, handed over %d rows / %d bytes", w, i, c.Blocks[i].Count, len(c.Blocks[i].Payload), b.n, len(b.data)), desc)
+						ok = false
+						break
+					}
+					stored = append(stored, c.Blocks[i].Raw)
+				}
+			}
+		}
+		if ok {
+			r.Add(cApp("KFw", w9CUB(schema), w9CUB([]byte(codec)), w9CCompStored(codec, stored), cList(ops), cList(outs), cList(appended)), desc, fmt.Sprintf("fw/%d/%v", it, hist))
+		}
+	}
+}
